@@ -63,22 +63,32 @@ def cellMissing : Cell → Bool
 /-- `data[list(cols_to_select)]` -/
 def selectCols (used : List String) (f : Frame) : Frame := f.filter (fun c => used.contains c.name)
 
-/-- `data.isna().any(axis=1)` on the selected columns -/
-def incompleteRows (f : Frame) : List Bool :=
-  (List.range f.nrows).map (fun r => f.any (fun c => cellMissing (c.cells.getD r .na)))
+/-- `data.isna().any(axis=1)` on the selected columns; `n` is the number of rows of the frame (a
+selection without columns still has the rows of the frame) -/
+def incompleteRows (n : Nat) (f : Frame) : List Bool :=
+  (List.range n).map (fun r => f.any (fun c => cellMissing (c.cells.getD r .na)))
+
+/-- `cells[keep]` for a boolean mask -/
+def kept {α : Type} (cells : List α) (keep : List Bool) : List α :=
+  (List.zip cells keep).filterMap (fun p => if p.2 then some p.1 else none)
 
 def keepRows (f : Frame) (keep : List Bool) : Frame :=
-  f.map (fun c => { c with cells := (List.zip c.cells keep).filterMap (fun p => if p.2 then some p.1 else none) })
+  f.map (fun c => { c with cells := kept c.cells keep })
 
-/-- the NA step of `design_matrices`: the frame the design is built from -/
+/-- the NA step of `design_matrices`: the frame the design is built from.  A frame without rows is
+refused ("'data' does not contain any observation"), and so is — since the repair D29 — a frame in
+which `drop` leaves no row ("'data' does not contain any complete observation"). -/
 def naStep (actions : List String) (action : String) (used : List String) (f : Frame) : Except Err Frame :=
-  if !actions.contains action then .error .valueError
+  if f.nrows == 0 then .error .valueError
+  else if !actions.contains action then .error .valueError
   else
     let sel := selectCols used f
-    let inc := incompleteRows sel
+    let inc := incompleteRows f.nrows sel
     if inc.any id then
       if action == "pass" then .ok sel
-      else if action == "drop" then .ok (keepRows sel (inc.map (!·)))
+      else if action == "drop" then
+        if inc.all id then .error .valueError
+        else .ok (keepRows sel (inc.map (!·)))
       else .error .valueError
     else .ok sel
 
